@@ -58,11 +58,21 @@ def make_cases(tier, root, chk=None):
     w2c2 = mclib.w2c2_binary()
     mods = {name: (m.encode(), m) for name, m, calls, imports in c09.base_modules()}
     # BT: every function decodes a small br_table of its own (decoder state that must not be shared between the writer threads)
-    from wasmenc import Module, local_get, block, br_table, i32_const, END, RETURN
+    # ... and uses every other writer that needs scratch space of its own: f32/f64/i64 literal formatting (different digits per function, so a
+    # buffer shared between the threads is a race under TSan and a different digest when two formatters interleave), typed locals, a memory
+    # access, a global, a direct call
+    import struct
+    from wasmenc import Module, local_get, local_set, block, br_table, i32_const, i64_const, f32_const, f64_const, global_get, call, memop, numop, DROP, END, RETURN, I32, I64, F32, F64
     bt = Module()
+    bt.mems.append((1, 1))
+    bt.globals.append((I32, 1, i32_const(7)))
     for k in range(3):
-        body = block(None) + block(None) + block(None) + local_get(0) + br_table([(k + j) % 3 for j in range(3 + k)], k % 3) + END + i32_const(10 + k) + RETURN + END + i32_const(20 + k) + RETURN + END + i32_const(30 + k)
-        bt.add_func('i', 'i', (), body, export='t%d' % k)
+        f32b = struct.unpack('<I', struct.pack('<f', 1.1 + 1.7 * k))[0]
+        f64b = struct.unpack('<Q', struct.pack('<d', 0.1 + 3.3 * k))[0]
+        pre = (f32_const(f32b) + local_set(2) + f64_const(f64b) + local_set(3) + i64_const(0x1122334455667788 * (k + 1) & 0x7fffffffffffffff) + local_set(1)
+               + local_get(0) + memop(0x28, 2, 4 * k) + DROP + global_get(0) + DROP + (local_get(0) + call((k + 2) % 3) + DROP if k == 0 else b''))
+        body = pre + block(None) + block(None) + block(None) + local_get(0) + br_table([(k + j) % 3 for j in range(3 + k)], k % 3) + END + i32_const(10 + k) + RETURN + END + i32_const(20 + k) + RETURN + END + i32_const(30 + k)
+        bt.add_func('i', 'i', ((1, I64), (1, F32), (1, F64)), body, export='t%d' % k)
     mods['BT'] = (bt.encode(), bt)
     cases = []
 
